@@ -13,6 +13,8 @@ import (
 	"encoding/hex"
 	"fmt"
 	"math/rand"
+	"os"
+	"os/exec"
 	"runtime"
 	"strings"
 	"sync"
@@ -41,7 +43,9 @@ type localDec struct {
 
 func newLocalDec(max uint32) (*localDec, *[]ref.HF) {
 	out := &[]ref.HF{}
-	d := lh.NewDecoder(max, func(f lh.HeaderField) { *out = append(*out, ref.HF{Name: f.Name, Value: f.Value, Sensitive: f.Sensitive}) })
+	d := lh.NewDecoder(max, func(f lh.HeaderField) {
+		*out = append(*out, ref.HF{Name: f.Name, Value: f.Value, Sensitive: f.Sensitive})
+	})
 	return &localDec{d, out}, out
 }
 func (l *localDec) Write(b []byte) (int, error) { return l.d.Write(b) }
@@ -64,7 +68,9 @@ type xDec struct {
 
 func newXDec(max uint32) (*xDec, *[]ref.HF) {
 	out := &[]ref.HF{}
-	d := xh.NewDecoder(max, func(f xh.HeaderField) { *out = append(*out, ref.HF{Name: f.Name, Value: f.Value, Sensitive: f.Sensitive}) })
+	d := xh.NewDecoder(max, func(f xh.HeaderField) {
+		*out = append(*out, ref.HF{Name: f.Name, Value: f.Value, Sensitive: f.Sensitive})
+	})
 	return &xDec{d, out}, out
 }
 func (l *xDec) Write(b []byte) (int, error) { return l.d.Write(b) }
@@ -340,11 +346,11 @@ func mutate(r *rand.Rand, b []byte) []byte {
 // ---------- case execution ----------
 
 type dcase struct {
-	Family  string   `json:"family"`
-	Max     uint32   `json:"decoder_max_table_size"`
-	Blocks  []string `json:"blocks_hex"` // prefix blocks then the judged block(s)
-	Cuts    []int    `json:"fragment_sizes_of_last_block,omitempty"`
-	blocks  [][]byte
+	Family string   `json:"family"`
+	Max    uint32   `json:"decoder_max_table_size"`
+	Blocks []string `json:"blocks_hex"` // prefix blocks then the judged block(s)
+	Cuts   []int    `json:"fragment_sizes_of_last_block,omitempty"`
+	blocks [][]byte
 }
 
 func fieldsEq(a, b []ref.HF) bool {
@@ -523,9 +529,9 @@ func head(b []byte) []byte {
 // ---------- round trip (A) ----------
 
 type rtOp struct {
-	Op    string   `json:"op"` // field, enc_max, limit, dec_allowed, block
-	Field *ref.HF  `json:"field,omitempty"`
-	V     uint32   `json:"v,omitempty"`
+	Op    string  `json:"op"` // field, enc_max, limit, dec_allowed, block
+	Field *ref.HF `json:"field,omitempty"`
+	V     uint32  `json:"v,omitempty"`
 }
 
 func roundTrip(ops []rtOp, r *rand.Rand, run *verdict.Run) *fail {
@@ -725,7 +731,58 @@ func calibrate(run *verdict.Run) bool {
 	return ok
 }
 
+// coldStart is run in a fresh child process: its very first uses of the package's decoder happen
+// on 16 goroutines at the same instant (lazily built package state must be ready for all of them).
+func coldStart() {
+	blocks := [][]byte{}
+	var want [][]ref.HF
+	for i := 0; i < 16; i++ {
+		var b []byte
+		var fs []ref.HF
+		for k := 0; k < 6; k++ {
+			name := fmt.Sprintf("x-cold-%d-%d", i, k)
+			val := strings.Repeat(string(rune('a'+(i+k)%26)), 5+k*7) + "/Zz;="
+			b = append(b, 0x00)
+			b = append(b, byte(0x80|len(ref.HuffmanEncode([]byte(name), 0, true))))
+			b = append(b, ref.HuffmanEncode([]byte(name), 0, true)...)
+			b = append(b, byte(0x80|len(ref.HuffmanEncode([]byte(val), 0, true))))
+			b = append(b, ref.HuffmanEncode([]byte(val), 0, true)...)
+			fs = append(fs, ref.HF{Name: name, Value: val})
+		}
+		blocks = append(blocks, b)
+		want = append(want, fs)
+	}
+	start := make(chan struct{})
+	var wg sync.WaitGroup
+	bad := make(chan string, 32)
+	for i := range blocks {
+		wg.Add(1)
+		go func(i int) {
+			defer wg.Done()
+			ld, out := newLocalDec(4096)
+			<-start
+			fields, err, p := decodeFragments(ld, out, blocks[i], nil)
+			if p != nil || err != nil || !fieldsEq(fields, want[i]) {
+				bad <- fmt.Sprintf("goroutine %d: first decode of a valid Huffman-coded block %x failed: err=%v panic=%v fields=%d", i, head(blocks[i]), err, p, len(fields))
+			}
+		}(i)
+	}
+	close(start)
+	wg.Wait()
+	select {
+	case m := <-bad:
+		fmt.Println("COLD-FAIL " + m)
+		os.Exit(1)
+	default:
+		fmt.Println("COLD-OK")
+		os.Exit(0)
+	}
+}
+
 func main() {
+	if os.Getenv("VERIF_C18_COLD") == "1" {
+		coldStart()
+	}
 	run := verdict.Start("C18", "exploration",
 		"(A) encoder->decoder round trips over random header lists and table-size schedules; (B) decoder vs RFC 7541 reference on valid (independent encoder), mutated, grammar-generated and random blocks preceded by table-filling blocks, each decoded whole, with random cuts, with every single cut (<=40 bytes) and every composition (<=9 bytes); (C) Huffman both directions; (D) differential with golang.org/x/net/http2/hpack v0.19.0. Distinct by block bytes + table prefix; non-trivial when the judged block is non-empty")
 	if !calibrate(run) {
@@ -789,6 +846,32 @@ func main() {
 	close(jobs)
 	wg.Wait()
 	huffman(run)
+	// cold starts: fresh processes whose first decodes run concurrently
+	nc := run.Pick(48, 600)
+	var cwg sync.WaitGroup
+	csem := make(chan struct{}, 6)
+	for i := 0; i < nc; i++ {
+		cwg.Add(1)
+		csem <- struct{}{}
+		go func(i int) {
+			defer cwg.Done()
+			defer func() { <-csem }()
+			cmd := exec.Command(os.Args[0])
+			cmd.Env = append(os.Environ(), "VERIF_C18_COLD=1")
+			out, err := cmd.CombinedOutput()
+			run.Eval(1)
+			run.Add("cold_start_processes", 1)
+			if err != nil || !strings.Contains(string(out), "COLD-OK") {
+				msg := strings.TrimSpace(string(out))
+				if len(msg) > 400 {
+					msg = msg[:400]
+				}
+				run.Violation("cold-start-concurrent-first-decodes", map[string]any{"process": i, "output": msg}, "fresh process #%d, 16 goroutines decoding their first block at once: %s (err %v)", i, msg, err)
+			}
+		}(i)
+	}
+	cwg.Wait()
+	run.Require("cold_start_processes", 40)
 	run.Require("ref_verdict_accept", 1000)
 	run.Require("ref_verdict_reject", 1000)
 	run.Require("roundtrip_blocks_with_two_size_updates", 10)
